@@ -384,6 +384,39 @@ func (e *c19env) runCase(in []c19kind, remote string, via string) {
 	}
 	r.Sample(fmt.Sprintf("saltedTokenProvider(remote=%s) %v -> %q err=%v", remote, names, out, err))
 
+	// one request, several remotes: a fan-out (or a multi-cluster list) asks the provider of every
+	// remote with the SAME request context.  What one remote's provider did must not change what
+	// the next remote is sent, nor the credentials of the request itself.
+	if via != "no-credentials" {
+		if creds, ok := auth.FromContext(ctx); ok {
+			seenToks := make([]string, len(in))
+			for i, k := range in {
+				seenToks[i] = k.token
+			}
+			if strings.Join(creds.Tokens, "\n") != strings.Join(seenToks, "\n") {
+				r.Violation("provider:request-credentials-changed-by-forwarding",
+					fmt.Sprintf("%s: the request carried %q; after asking the provider of %s its credentials are %q", key, seenToks, remote, creds.Tokens), rp)
+			}
+		}
+		for _, other := range c19remotes {
+			if other == remote {
+				continue
+			}
+			r.Eval(1)
+			e.local.lookups = nil
+			out3, err3 := saltedTokenProvider(e.local, other)(ctx)
+			if err3 != nil {
+				r.Outcome("provider(second remote): call fails")
+				if !mayFail {
+					r.Violation("provider:unexpected-failure:second-remote", fmt.Sprintf("%s then remote %s, tokens=%q: %v", key, other, toks, err3), rp)
+				}
+				continue
+			}
+			r.Outcome("provider(second remote): tokens returned")
+			e.judge("provider-second-remote", in, other, out3, strings.Join(out3, "\n"), rp)
+		}
+	}
+
 	// end to end through rpc.Conn, as wired by federation.New
 	if e.srv != nil && len(in) >= 1 && len(in) <= 2 && via == "context" {
 		r.Eval(1)
@@ -416,6 +449,8 @@ func (e *c19env) runCase(in []c19kind, remote string, via string) {
 		e.judge("rpc", in, remote, got.tokens, dump, rp)
 	}
 }
+
+var c19remotes = []string{"zmock", "zthrd"}
 
 func TestVerifC19Provider(t *testing.T) {
 	r := vrep.New("C19", "provider")
@@ -474,7 +509,7 @@ func TestVerifC19Provider(t *testing.T) {
 	}))
 	defer e.srv.Close()
 
-	remotes := []string{"zmock", "zthrd"}
+	remotes := c19remotes
 
 	var rp c19replay
 	if vrep.ReplayDoc(&rp) {
